@@ -31,6 +31,14 @@ func detVerdict(b []byte) int {
 	if v1 != v2 {
 		return 2
 	}
+	// ... nor on what the same buffer held when it was checked before: a buffer of zeros (a valid sequence of
+	// len(b) integers) is checked, overwritten in place with b, and checked again
+	reused := make([]byte, len(b))
+	detOnce(reused)
+	copy(reused, b)
+	if detOnce(reused) != v1 {
+		return 3
+	}
 	return v1
 }
 
@@ -40,6 +48,8 @@ func opDet(args []Sx) Sx {
 		return L(Sym("accept"))
 	case 2:
 		return L(Sym("depends_on_hidden_capacity"))
+	case 3:
+		return L(Sym("depends_on_history"))
 	}
 	return L(Sym("reject"))
 }
